@@ -293,7 +293,8 @@ func (runInfo *runInfoStruct) callVMFunctionDirect(f reflect.Value, callExpr *as
 		if runInfo.err != nil {
 			return true
 		}
-		args = append(args, runInfo.rv)
+		// an argument is the value read now, not the element or field it was read from
+		args = append(args, heldOperand(runInfo.rv))
 	}
 
 	if !runInfo.options.Debug {
@@ -452,6 +453,7 @@ func (runInfo *runInfoStruct) makeCallArgs(rt reflect.Type, isRunVMFunction bool
 		if runInfo.err != nil {
 			return nil, false
 		}
+		runInfo.rv = heldOperand(runInfo.rv)
 		if isRunVMFunction {
 			args = append(args, reflect.ValueOf(runInfo.rv))
 		} else {
@@ -477,6 +479,7 @@ func (runInfo *runInfoStruct) makeCallArgs(rt reflect.Type, isRunVMFunction bool
 		if runInfo.err != nil {
 			return nil, false
 		}
+		runInfo.rv = heldOperand(runInfo.rv)
 		if runInfo.err != nil {
 			return nil, false
 		}
@@ -502,6 +505,7 @@ func (runInfo *runInfoStruct) makeCallArgs(rt reflect.Type, isRunVMFunction bool
 		if runInfo.err != nil {
 			return nil, false
 		}
+		runInfo.rv = heldOperand(runInfo.rv)
 		if runInfo.rv.Kind() == reflect.Interface && !runInfo.rv.IsNil() {
 			runInfo.rv = runInfo.rv.Elem()
 		}
@@ -520,9 +524,9 @@ func (runInfo *runInfoStruct) makeCallArgs(rt reflect.Type, isRunVMFunction bool
 		slice := runInfo.rv
 		for indexInReal < numInReal {
 			if isRunVMFunction {
-				args = append(args, reflect.ValueOf(slice.Index(indexSlice)))
+				args = append(args, reflect.ValueOf(heldOperand(slice.Index(indexSlice))))
 			} else {
-				runInfo.rv, runInfo.err = convertReflectValueToType(slice.Index(indexSlice), rt.In(indexInReal))
+				runInfo.rv, runInfo.err = convertReflectValueToType(heldOperand(slice.Index(indexSlice)), rt.In(indexInReal))
 				if runInfo.err != nil {
 					runInfo.err = newStringError(callExpr.SubExprs[indexExpr],
 						"function wants argument type "+rt.In(indexInReal).String()+" but received type "+runInfo.rv.Type().String())
@@ -553,6 +557,7 @@ func (runInfo *runInfoStruct) makeCallArgs(rt reflect.Type, isRunVMFunction bool
 		if runInfo.err != nil {
 			return nil, false
 		}
+		runInfo.rv = heldOperand(runInfo.rv)
 		if isRunVMFunction {
 			args = append(args, reflect.ValueOf(runInfo.rv))
 		} else {
@@ -577,6 +582,7 @@ func (runInfo *runInfoStruct) makeCallArgs(rt reflect.Type, isRunVMFunction bool
 			if runInfo.err != nil {
 				return nil, false
 			}
+			runInfo.rv = heldOperand(runInfo.rv)
 			runInfo.rv, runInfo.err = convertReflectValueToType(runInfo.rv, sliceType)
 			if runInfo.err != nil {
 				runInfo.err = newStringError(callExpr.SubExprs[indexExpr],
@@ -602,6 +608,7 @@ func (runInfo *runInfoStruct) makeCallArgs(rt reflect.Type, isRunVMFunction bool
 	if runInfo.err != nil {
 		return nil, false
 	}
+	runInfo.rv = heldOperand(runInfo.rv)
 	runInfo.rv, runInfo.err = convertReflectValueToType(runInfo.rv, sliceType)
 	if runInfo.err != nil {
 		runInfo.err = newStringError(callExpr.SubExprs[indexExpr],
